@@ -84,7 +84,8 @@ def apply(c):
     c.contract('dns/wire_format.rs', "pub trait WireFormat<'a> {", 'parse', """
         requires *old(position) <= data.len(), data.len() <= isize::MAX,
         ensures
-            r is Ok ==> *old(position) <= *final(position) <= data.len(), // @C01:cursor-in-bounds
+            r is Ok ==> *old(position) <= *final(position), // @C01:cursor-monotone
+            r is Ok ==> *final(position) <= data.len(), // @C01:cursor-in-bounds
             r is Ok ==> Self::wf_dec(data@, *old(position) as int, &r.unwrap(), *final(position) as int), // @C10:decoded-per-rfc
 """)
     c.contract('dns/wire_format.rs', "pub trait WireFormat<'a> {", 'write_to', """
